@@ -327,9 +327,13 @@ def make_frame(rng, values, key_kind=None, attr='attr', key='id', extra_cols=Non
                odd_index=None, str_dtype=False):
     """DataFrame with a unique key column, the join column (object dtype) and optional extras"""
     n = len(values)
-    key_kind = key_kind or rng.choice(['int', 'str', 'int_offset', 'int', 'str', 'int_offset', 'mixed'])
+    key_kind = key_kind or rng.choice(['int', 'str', 'int_offset', 'int', 'str', 'int_offset', 'mixed', 'int_big'])
     if key_kind == 'int':
         keys = list(range(n))
+    elif key_kind == 'int_big':
+        # 17-19 digit identifiers (snowflake ids): neighbouring keys are distinct ints but equal once cast to float64
+        base = rng.choice([2 ** 53, 10 ** 17, 2 ** 62 - 1000])
+        keys = [base + i for i in rng.sample(range(3 * n + 3), n)]
     elif key_kind == 'int_offset':
         keys = rng.sample(range(100, 100 + 3 * n + 3), n)
     elif key_kind == 'mixed':
